@@ -13,7 +13,12 @@ def utc(ms):
 def make_region(region, mags=None):
     from csep.core import regions
     m = None if mags is None else numpy.array(mags['edges'], dtype=float)
-    if region['kind'] == 'cart':
+    if region['kind'] == 'cart' and region.get('mask'):
+        from csep.models import Polygon
+        origins = numpy.array(region['origins'], dtype=float)
+        r = regions.CartesianGrid2D([Polygon(b) for b in regions.compute_vertices(origins, region['dh'])], region['dh'],
+                                    mask=numpy.array(region['mask'], dtype=float), magnitudes=m, name='simgrid')
+    elif region['kind'] == 'cart':
         r = regions.CartesianGrid2D.from_origins(numpy.array(region['origins'], dtype=float),
                                                  dh=region['dh'], magnitudes=m, name='simgrid')
     else:
